@@ -167,7 +167,21 @@ func partsOf(sealed []byte, typ string) (*envelopeParts, error) {
 func linkNode(c cid.Cid) ipld.Node { return basicnode.NewLink(cidlink.Link{Cid: c}) }
 
 func newEnvWorld(seed int64, mSameAlg bool) (*envWorld, error) {
+	return newEnvWorldAlg(seed, mSameAlg, "")
+}
+
+// newEnvWorldAlg: hAlg != "" fixes the honest issuer's key algorithm.
+func newEnvWorldAlg(seed int64, mSameAlg bool, hAlg string) (*envWorld, error) {
 	w := newWorld(seed, fastAlgs)
+	if hAlg != "" {
+		w.algs = []string{hAlg}
+		if _, err := w.principal("H"); err != nil {
+			return nil, err
+		}
+		if !mSameAlg {
+			w.algs = []string{"ed25519", "secp256k1", "p256", "p384"}
+		}
+	}
 	ew := &envWorld{hdr: map[string][]byte{}, base: map[string]*envelopeParts{}}
 	var err error
 	if ew.H, err = w.principal("H"); err != nil {
@@ -372,6 +386,10 @@ func (ew *envWorld) classValue(e *envelopeParts, f, c string) (ipld.Node, bool, 
 			return basicnode.NewInt(-(1 << 53)), true, nil
 		case "u64":
 			return bigU64, true, nil
+		case "zero":
+			return basicnode.NewInt(0), true, nil
+		case "neg":
+			return basicnode.NewInt(-1), true, nil
 		}
 	case "cause":
 		if c == "wrongkind" {
@@ -438,6 +456,19 @@ func (ew *envWorld) apply(e *envelopeParts, op envOp) error {
 			e.sig = basicnode.NewBytes(old[:len(old)/2])
 		case "string":
 			e.sig = basicnode.NewString(string(old))
+		case "zeros":
+			e.sig = basicnode.NewBytes(make([]byte, 64))
+		case "dersmall":
+			e.sig = basicnode.NewBytes([]byte{0x30, 0x06, 0x02, 0x01, 0x01, 0x02, 0x01, 0x01})
+		case "rawrs":
+			// a well-formed fixed-size (r, s) pair with small values, sized for the issuer's algorithm
+			n := map[string]int{"ed25519": 64, "secp256k1": 64, "p256": 64, "p384": 96, "p521": 132, "rsa": 256}[ew.H.alg]
+			if n == 0 {
+				n = 64
+			}
+			g := make([]byte, n)
+			g[n/2-1], g[n-1] = 1, 1
+			e.sig = basicnode.NewBytes(g)
 		}
 	default:
 		return fmt.Errorf("unknown op %q", op.Op)
@@ -640,11 +671,7 @@ func envelopeReplay(prop string) replayFn {
 			return err
 		}
 		rep.Extra["algorithms"] = map[string]string{"H": ew.H.alg, "M": ew.M.alg}
-		for _, raw := range cases {
-			var c envCase
-			if err := json.Unmarshal(raw, &c); err != nil {
-				return err
-			}
+		runCase := func(ew *envWorld, raw json.RawMessage, c envCase) error {
 			e := ew.base[c.Type].clone()
 			for _, op := range c.Ops {
 				if err := ew.apply(e, op); err != nil {
@@ -702,7 +729,44 @@ func envelopeReplay(prop string) replayFn {
 					}
 				}
 			}
-			rep.sample(map[string]any{"case": json.RawMessage(raw), "real_accepts": anyAccepted})
+			rep.sample(map[string]any{"case": json.RawMessage(raw), "real_accepts": anyAccepted, "H": ew.H.alg})
+			return nil
+		}
+		var sigCases []json.RawMessage
+		var sigParsed []envCase
+		for _, raw := range cases {
+			var c envCase
+			if err := json.Unmarshal(raw, &c); err != nil {
+				return err
+			}
+			if err := runCase(ew, raw, c); err != nil {
+				return err
+			}
+			if n := len(c.Ops); n > 0 && c.Ops[n-1].Op == "sig" {
+				sigCases = append(sigCases, raw)
+				sigParsed = append(sigParsed, c)
+			}
+		}
+		// signature verification is a different code path per key algorithm: the behaviours that edit the
+		// signature are replayed with an honest issuer of every algorithm did.Generate* offers
+		if prop == "C06" && sameAlg {
+			swept := []string{}
+			for _, alg := range []string{"ed25519", "secp256k1", "p256", "p384", "p521", "rsa"} {
+				if alg == ew.H.alg {
+					continue
+				}
+				ew2, err := newEnvWorldAlg(envSeed(), true, alg)
+				if err != nil {
+					return err
+				}
+				swept = append(swept, alg)
+				for i, raw := range sigCases {
+					if err := runCase(ew2, raw, sigParsed[i]); err != nil {
+						return err
+					}
+				}
+			}
+			rep.Extra["signature_cases_swept_over_issuer_algorithms"] = map[string]any{"algorithms": swept, "cases": len(sigCases)}
 		}
 		return nil
 	}
